@@ -23,7 +23,8 @@ symbols with the real objects and requires
 
 Search: the property's statement as a pure-Python oracle on real fitted vines (no Lean): needed vs
 used pseudo-observation per edge, U range, likelihood under two `np.empty` sentinels and against an
-independent by-variable recursion, sample shape / NaN / reproducibility; deep: two-column statistics.
+independent by-variable recursion, sample shape / NaN / reproducibility; refit histories (the same object
+fitted on A then on B, or twice on B, against a fresh fit of B); deep: two-column statistics.
 """
 import contextlib
 import math
@@ -74,7 +75,7 @@ MODE_W = (5, 3, 3, 3, 1, 2, 3)
 CLS_URANGE = 'Tree.prepare_next_tree:U-outside-(0,1)'
 SENTINELS = (0.3125, 0.71875)
 CLS_UNWRITTEN = 'VineCopula.get_likelihood:reads-unwritten-cells'
-CLS_WRONGCELL = 'VineCopula.get_likelihood:reads-wrong-cell'
+CLS_WRONGCELL = 'VineCopula.get_likelihood:differs-from-sum-of-log-pair-densities'
 CLS_WRONGU = 'Edge.get_conditional_uni:wrong-parent-pseudo-observation'
 CLS_REFIT = 'VineCopula.fit:refit-differs-from-fresh'
 
@@ -567,7 +568,7 @@ def run(ctx, lean):
             bad[name] = detail
 
     rng = ctx.rng('tables')
-    n_tables = 16 if ctx.tier == 'quick' else 76
+    n_tables = 16 if ctx.tier == 'quick' else 64
     for it in range(n_tables):
         d = rng.choice([3, 4, 4, 4, 5, 5, 6])
         mode = rng.choices(MODES, MODE_W)[0]
@@ -864,7 +865,9 @@ def check_real(ctx, X, vt, t, counts, rng, deep):
             except Exception as ex:  # noqa
                 want = 'exc:' + type(ex).__name__
         r = real_lik(v, u)
-        if isinstance(r, str) or r != r or not same_num(r, want, 1e-9):
+        if not isinstance(r, str) and r != r and want != want:
+            counts['lik-nan-agrees'] += 1      # a pair density is 0/NaN at saturated h values: both sides NaN
+        if isinstance(r, str) or not same_num(r, want, 1e-9):
             counts['failures'] += 1
             counts['lik-wrong-value'] += 1
             ctx.fail_input('VineCopula.get_likelihood', inp_u, {'get_likelihood': r, 'sum at h-propagated arguments': want},
@@ -917,11 +920,80 @@ def two_column_stats(ctx, X, vt, t, v, counts, rng):
                        'VineCopula.sample:two-column-tau')
 
 
+def vine_signature(v, u, seed):
+    """everything observable the property speaks about, canonicalised (floats as bit patterns)."""
+    sig = {'trees': len(v.trees), 'unis': len(v.unis), 'ppfs': len(v.ppfs), 'n_var': int(v.n_var),
+           'columns': [str(c) for c in v.columns], 'truncated': int(v.truncated)}
+    sig['edges'] = [[(int(e.L), int(e.R), tuple(sorted(int(x) for x in e.D)), fam_of(e), vc.f2h(np.ravel(e.theta)[0]))
+                     for e in tr.edges] for tr in v.trees]
+    sig['u_matrix'] = vc.f2h(float(np.sum(np.asarray(v.u_matrix)))) + str(np.asarray(v.u_matrix).shape)
+    sig['edge.U'] = [[vc.f2h(float(np.sum(np.asarray(e.U)))) for e in tr.edges] for tr in v.trees]
+    lk = real_lik(v, u, SENTINELS[0])
+    sig['get_likelihood(u) with np.empty filled'] = lk if isinstance(lk, str) else vc.f2h(lk)
+    try:
+        v.set_random_state(seed)
+        with np.errstate(all='ignore'):
+            smp = v.sample(3)
+        sig['sample(3) seeded'] = [list(map(str, smp.columns)), [vc.f2h(x) for x in smp.to_numpy().ravel()]]
+    except Exception as ex:  # noqa
+        sig['sample(3) seeded'] = 'exc:' + type(ex).__name__ + (':brent' if 'different signs' in str(ex) else '')
+    finally:
+        v.random_state = None
+    return sig
+
+
+def refit_oracle(ctx, A, tA, B, t, vt, counts, rng):
+    """a fitted vine describes the table it was LAST fitted on: m.fit(A); m.fit(B) must be observably the vine a
+    fresh object gives on B (tree / marginal counts, every edge, get_likelihood on a probe, seeded sample)."""
+    from copulas.multivariate.vine import VineCopula
+    counts['refit histories'] += 1
+    try:
+        with time_limit(3 * FIT_TIMEOUT_S):
+            fresh = VineCopula(vt)
+            fresh.fit(B, truncated=t)
+    except Exception:  # noqa
+        counts['refused'] += 1
+        return
+    try:
+        with time_limit(3 * FIT_TIMEOUT_S):
+            m = VineCopula(vt)
+            m.fit(A, truncated=tA)
+    except Exception:  # noqa
+        counts['refused'] += 1
+        return
+    inp = {'history': 'fit(A) then fit(B) on the same object', 'vine_type': vt, 'truncated_A': int(tA), 'truncated': int(t),
+           'A': {'columns': list(A.columns), 'rows': A.to_numpy().tolist()},
+           'B': {'columns': list(B.columns), 'rows': B.to_numpy().tolist()}}
+    try:
+        with time_limit(3 * FIT_TIMEOUT_S):
+            m.fit(B, truncated=t)
+    except Exception as ex:  # noqa
+        counts['failures'] += 1
+        ctx.fail_input('VineCopula.fit', inp, f'second fit raised {type(ex).__name__}: {str(ex)[:80]}',
+                       'the second fit behaves like a fit of a fresh object', CLS_REFIT)
+        return
+    d = B.shape[1]
+    u = np.array([[rng.uniform(0.05, 0.95) for _ in range(d)]])
+    seed = rng.getrandbits(31)
+    s1, s2 = vine_signature(m, u, seed), vine_signature(fresh, u, seed)
+    diff = [k for k in s2 if s1.get(k) != s2[k]]
+    if diff:
+        counts['failures'] += 1
+        k = diff[0]
+        ctx.fail_input('VineCopula.fit', dict(inp, u=u.tolist(), seed=seed),
+                       {'differs in': diff, k + ' (refitted)': str(s1.get(k))[:200], k + ' (fresh)': str(s2[k])[:200]},
+                       'm.fit(A); m.fit(B) is observably the vine of a fresh fit(B)', CLS_REFIT)
+
+
+def new_counts():
+    return {'fits': 0, 'checked': 0, 'refused': 0, 'failures': 0, 'wrong-parent-U': 0, 'lik-nondeterministic': 0,
+            'lik-wrong-value': 0, 'lik-nan-agrees': 0, 'two-column stats': 0, 'refit histories': 0}
+
+
 def search(ctx, deep):
     rng = ctx.rng('search')
-    counts = {'fits': 0, 'checked': 0, 'refused': 0, 'failures': 0, 'wrong-parent-U': 0, 'lik-nondeterministic': 0,
-              'lik-wrong-value': 0, 'two-column stats': 0}
-    n_tables = 34 if deep else 6
+    counts = new_counts()
+    n_tables = 24 if deep else 6
     for it in range(n_tables):
         d = rng.choice([2, 2, 3, 4, 4, 5, 5, 6]) if deep else rng.choice([2, 3, 4, 5, 6])
         mode = rng.choices(MODES, MODE_W)[0]
@@ -932,16 +1004,29 @@ def search(ctx, deep):
                 ts = [rng.choice([1, 2])]
             for t in ts:
                 check_real(ctx, X, vt, max(1, t), counts, rng, deep)
+    # refit histories: the same object fitted twice (same table; table A then table B of another shape)
+    for it in range(2 if deep else 1):
+        dA, dB = rng.choice([2, 3, 4]), rng.choice([2, 3, 4, 5])
+        A = gen_table(rng, dA, rng.choices(MODES, MODE_W)[0])
+        B = gen_table(rng, dB, rng.choices(MODES, MODE_W)[0])
+        for vt in TYPES:
+            refit_oracle(ctx, A, rng.randint(1, dA), B, rng.randint(1, dB), vt, counts, rng)
+            tB = rng.randint(1, dB)
+            refit_oracle(ctx, B, tB, B, tB, vt, counts, rng)
     ctx.support = dict(counts, deep=deep)
 
 
 def replay(ctx, payload):
     inp = payload['input']
-    X = pd.DataFrame(np.array(inp['rows'], dtype=float), columns=inp['columns'])
-    counts = {'fits': 0, 'checked': 0, 'refused': 0, 'failures': 0, 'wrong-parent-U': 0, 'lik-nondeterministic': 0,
-              'lik-wrong-value': 0, 'two-column stats': 0}
+    counts = new_counts()
     before = len(ctx.failing)
     rng = ctx.rng('replay')
+    if 'history' in inp:
+        A = pd.DataFrame(np.array(inp['A']['rows'], dtype=float), columns=inp['A']['columns'])
+        B = pd.DataFrame(np.array(inp['B']['rows'], dtype=float), columns=inp['B']['columns'])
+        refit_oracle(ctx, A, inp['truncated_A'], B, inp['truncated'], inp['vine_type'], counts, rng)
+        return any(f['class'] == payload.get('class') for f in ctx.failing[before:])
+    X = pd.DataFrame(np.array(inp['rows'], dtype=float), columns=inp['columns'])
     for _ in range(3):     # the likelihood clauses draw u: a few draws
         check_real(ctx, X, inp['vine_type'], inp['truncated'], counts, rng, False)
         if any(f['class'] == payload.get('class') for f in ctx.failing[before:]):
